@@ -277,7 +277,7 @@ func play(rep *hx.Report, w *world.World, o *hx.Opts, c cell, idx int) {
 	}
 	q := []string{fmt.Sprintf("p.rcpt %s %s 3 %d %s %s %s", al, b(c.reject), fillers, hx.H(addr), b(cl.isRole), b(cl.userIn)),
 		fmt.Sprintf("p.folder %s %s %s", hx.H(folder), optH(sv.rs), optH(sv.ss)),
-		fmt.Sprintf("p.owner %s %s %s", hx.H(strings.ToLower(addr[:strings.LastIndex(addr+"@", "@")])+strings.ToLower(addr[strings.LastIndex(addr+"@", "@"):])), b(cl.isRole), b(cl.dis)),
+		fmt.Sprintf("p.owner %s %s %s", hx.H(addr), b(cl.isRole), b(cl.dis)), // as written on the wire: the model puts the domain in lower case, like parseRcptTo
 		fmt.Sprintf("p.size 600 %d", len(msg)),
 		fmt.Sprintf("p.quota %s %d 0 %d", b(cfg.Delivery.QuotaEnabled), cfg.Delivery.QuotaLimit, len(msg))}
 	m, err := hx.RunModel(o.Driver, q)
@@ -292,11 +292,6 @@ func play(rep *hx.Report, w *world.World, o *hx.Opts, c cell, idx int) {
 	rep.Hit("class:" + cl.name)
 	rep.Hit("rcpt:" + rcptCode)
 	viol := func(what string) {
-		if c.domCase && strings.Contains(addr, "@Example.COM") {
-			// class predicate of finding C17-F2: the recipient's domain equals a known / allowed domain only case-insensitively
-			rep.Finding("C17-F2", "domains are compared case-sensitively: "+desc+": "+what, []string{c.line()})
-			return
-		}
 		rep.Violate("impl-violation", "policy vs Model/Policy (Props.C17.rcpt_policy_matches_docs / filing_exact)", desc+": "+what, []string{c.line()})
 	}
 	if rcptCode != wantRcpt {
